@@ -230,12 +230,9 @@ Proof.
     inversion H; subst; clear H. unfold inv, set_phase. cbn [entries hands ph next_id inbound calls]. rewrite Hh.
     repeat split; try discriminate; try exact I; try (intros; contradiction).
     intros p i I. destruct (I1 p i I) as [y [Fy _]]. cbn in Fy. discriminate.
-  - (* Assert *)
+  - (* Assert / cleanup *)
     destruct (ph s) eqn:P; try discriminate. inversion H; subst; clear H.
-    assert (He : entries s = []).
-    { destruct (entries s) as [|[p i] r] eqn:E; [reflexivity|].
-      destruct (I1 p i (or_introl eq_refl)) as [y [Fy _]]. rewrite I4 in Fy. discriminate. }
-    unfold inv, set_phase. cbn [entries hands ph next_id inbound calls]. rewrite He.
+    unfold inv. cbn [entries hands ph next_id inbound calls].
     repeat split; try assumption; try discriminate; try exact I; try (intros; contradiction); try (apply I2; assumption).
   - (* Finish *)
     destruct (ph s) eqn:P; try discriminate. inversion H; subst; clear H.
@@ -464,8 +461,7 @@ Proof.
     split; [discriminate|]. cbn [sum_weight]. lia.
   - (* Assert *)
     destruct (ph s) eqn:P; try discriminate. inversion H; subst; clear H.
-    cbn [ph inbound entries hands rank set_phase]. split; [destruct (entries s); discriminate|].
-    destruct (entries s); cbn [rank]; lia.
+    cbn [ph inbound entries hands rank set_phase length]. split; [discriminate|]. lia.
   - (* Finish *)
     destruct (ph s) eqn:P; try discriminate. inversion H; subst; clear H.
     cbn [ph inbound entries hands rank length sum_weight]. split; [discriminate|]. lia.
@@ -486,26 +482,35 @@ Proof.
     unfold count_progress in *. cbn [filter]. destruct (progress_label l); cbn [length]; lia.
 Qed.
 
-(** ---------- runtime teardown: the two statements of C08 that are false ---------- *)
-Theorem teardown_never_panics_refuted :
-  exists ls s, run init ls = Some s /\ ph s = MPanicked.
+(** ---------- runtime teardown ---------- *)
+(** With the repaired code no step leads to a panic, whatever the runtime cancels and whenever:
+    a cancelled handler is simply joined, and what it left in the active-peer set is removed by
+    shutdown() instead of tripping an assertion. *)
+Lemma step_no_panic s l s' : ph s <> MPanicked -> step s l = Some s' -> ph s' <> MPanicked.
 Proof.
-  exists [Incoming; InboundDone true 7; Cancel 0; Join 0]. eexists. split; [reflexivity|reflexivity].
+  intros NP H. destruct l; cbn [step] in H; brk H; inversion H; subst; clear H;
+    unfold set_calls, set_hands, set_phase, add_peer; cbn [ph]; try assumption; try discriminate;
+    try (rewrite ?E, ?E0, ?E1 in *; assumption || discriminate).
 Qed.
 
-Theorem teardown_assertion_refuted :
-  exists ls s, run init ls = Some s /\ ph s = MPanicked
-               /\ existsb (fun l => match l with Join _ => true | _ => false end) ls = true
-               /\ forallb (fun l => match l with Cancel _ => true | _ => negb (teardown_label l) end) ls = true.
+Theorem never_panics ls : forall s s', ph s <> MPanicked -> run s ls = Some s' -> ph s' <> MPanicked.
 Proof.
-  exists [Incoming; InboundDone true 7; Submit CShutdown; Process; Cancel 0; AbortPending; Join 0; AllJoined; Assert].
-  eexists. repeat split; reflexivity.
+  induction ls as [|l t IH]; intros s s' NP H; cbn [run] in H; [now inversion H; subst|].
+  destruct (step s l) as [s1|] eqn:E; [|discriminate]. eapply IH; [|exact H]. eapply step_no_panic; eassumption.
 Qed.
 
-(** The loop can take the [AcceptNone] branch forever without changing state or yielding. *)
-Theorem teardown_never_spins_refuted :
-  exists ls s, run init ls = Some s /\ step s AcceptNone = Some s.
-Proof. exists [Incoming]. eexists. split; reflexivity. Qed.
+(** The schedules on which the pinned code panicked are executable in the model and end well. *)
+Lemma former_teardown_witnesses :
+  (exists s, run init [Incoming; InboundDone true 7; Cancel 0; Join 0] = Some s /\ ph s = MLoop)
+  /\ (exists s, run init [Incoming; InboundDone true 7; Submit CShutdown; Process; Cancel 0; AbortPending;
+                         Join 0; AllJoined; Assert; Finish] = Some s
+                 /\ ph s = MDone /\ entries s = [] /\ lost_events s = 1%nat).
+Proof. split; eexists; repeat split; reflexivity. Qed.
+
+(** A cancelled handler's peer is reported lost exactly once by the cleanup. *)
+Lemma cleanup_reports_leftovers s s' :
+  step s Assert = Some s' -> entries s' = [] /\ lost_events s' = (lost_events s + length (entries s))%nat.
+Proof. cbn [step]. destruct (ph s); try discriminate. intros H. inversion H; subst. auto. Qed.
 
 Lemma accept_none_spins n s : in_loop s = true -> run s (repeat AcceptNone n) = Some s.
 Proof. intros L. induction n as [|n IH]; [reflexivity|]. cbn [repeat run step]. now rewrite L. Qed.
